@@ -206,3 +206,151 @@ pub fn check_fixed(c: &FixedCase, known: &Arc<Known>) -> Verdict {
     j.class_if(!c.idx_keys.is_empty(), "index-files-on-disk");
     j.finish(nt)
 }
+
+// ------------------------------------------------------------------ hard link container: what its operations remove
+
+/// A `HardLinkContainer` over the configured directory, initialised or not (a container opened
+/// on an existing directory has no `.trie_directory` token), holding a few key files that share
+/// trie levels; then deletions in batches, single removals, clean and compact. Whatever empties
+/// the trie, nothing outside the directory may change and the directory itself stays.
+#[derive(Debug, Clone, Serialize, Deserialize)]
+pub enum HOp {
+    /// `delete_keys` with the pool keys selected by the bit mask
+    DeleteKeys(u8),
+    /// `remove_file(key, path_for_key)` of pool key #i
+    RemoveFile(u8),
+    /// `Container::remove` of pool key #i (needs `test_support` to have succeeded)
+    Remove(u8),
+    Clean,
+    Compact,
+    /// the harness files pool key #i again (as `create_link` would)
+    Place(u8),
+}
+
+#[derive(Debug, Clone, Serialize, Deserialize)]
+pub struct HardLinkCase {
+    pub initialize: bool,
+    pub test_support: bool,
+    /// pool keys filed at the start (bit mask)
+    pub placed: u8,
+    pub ops: Vec<HOp>,
+}
+
+const HPOOL: [[u8; 3]; 6] = [[0x01, 0xaa, 0x10], [0x01, 0xaa, 0x20], [0x01, 0xbb, 0x30], [0x02, 0xcc, 0x40], [0x2e, 0x2e, 0x50], [0xff, 0x00, 0x60]];
+
+fn hkey(i: usize) -> [u8; 16] {
+    let mut k = [0x5au8; 16];
+    k[..3].copy_from_slice(&HPOOL[i % HPOOL.len()]);
+    k
+}
+
+pub fn hardlink_strategy() -> BoxedStrategy<HardLinkCase> {
+    let op = prop_oneof![
+        6 => any::<u8>().prop_map(HOp::DeleteKeys),
+        2 => (0u8..6).prop_map(HOp::RemoveFile),
+        2 => (0u8..6).prop_map(HOp::Remove),
+        1 => Just(HOp::Clean),
+        1 => Just(HOp::Compact),
+        2 => (0u8..6).prop_map(HOp::Place),
+    ];
+    (prop::bool::weighted(0.5), any::<bool>(), prop_oneof![2 => 1u8..64, 1 => Just(63u8), 1 => Just(1u8)], proptest::collection::vec(op, 1..8))
+        .prop_map(|(initialize, test_support, placed, ops)| HardLinkCase { initialize, test_support, placed, ops })
+        .boxed()
+}
+
+pub fn check_hardlink(c: &HardLinkCase, known: &Arc<Known>) -> Verdict {
+    use cascette_client_storage::container::{AccessMode, Container, HardLinkContainer};
+    let sb = match Sandbox::new() {
+        Ok(s) => s,
+        Err(e) => {
+            infra(format!("sandbox: {e}"));
+            return Verdict::pass();
+        }
+    };
+    let mut j = J::new(known);
+    let rt = tokio::runtime::Builder::new_current_thread().enable_all().build().expect("runtime");
+    let mut cont = HardLinkContainer::new(AccessMode::ReadWrite, sb.root.clone());
+    let mut before = sb.list();
+    if c.initialize {
+        if let Err(e) = rt.block_on(cont.initialize()) {
+            infra(format!("HardLinkContainer::initialize: {e}"));
+            return Verdict::pass();
+        }
+    }
+    if c.test_support {
+        // both test directories inside the configured directory
+        let (s, t) = (sb.root.join("ts-src"), sb.root.join("ts-dst"));
+        let _ = std::fs::create_dir_all(&s);
+        let _ = std::fs::create_dir_all(&t);
+        let _ = cont.test_support(&s, &t);
+        let _ = std::fs::remove_dir(&s);
+        let _ = std::fs::remove_dir(&t);
+    }
+    if confined(&sb, &mut before, &mut j, "C20:hardlink-container:setup-touches-files-outside", "HardLinkContainer::initialize/test_support", "") {
+        return j.finish(true);
+    }
+    let place = |i: usize| {
+        let k = hkey(i);
+        let mut e = [0u8; 9];
+        e.copy_from_slice(&k[..9]);
+        let p = format_content_key_path(&sb.root, &e);
+        if let Some(d) = p.parent() {
+            let _ = std::fs::create_dir_all(d);
+        }
+        let _ = std::fs::write(&p, b"content");
+        p
+    };
+    let path_of = |i: usize| {
+        let k = hkey(i);
+        let mut e = [0u8; 9];
+        e.copy_from_slice(&k[..9]);
+        format_content_key_path(&sb.root, &e)
+    };
+    for i in 0..HPOOL.len() {
+        if c.placed >> i & 1 == 1 {
+            place(i);
+        }
+    }
+    before = sb.list();
+    let key_files = |l: &crate::sandbox::Listing| sb.files_in_root(l);
+    let mut emptied = false;
+    for (n, op) in c.ops.iter().enumerate() {
+        let call: String;
+        let r = catch_panic(|| match op {
+            HOp::DeleteKeys(mask) => {
+                let keys: Vec<[u8; 16]> = (0..HPOOL.len()).filter(|i| mask >> i & 1 == 1).map(hkey).collect();
+                cont.delete_keys(&keys).map(|_| ())
+            }
+            HOp::RemoveFile(i) => cont.remove_file(&hkey(*i as usize), &path_of(*i as usize)),
+            HOp::Remove(i) => rt.block_on(cont.remove(&hkey(*i as usize))),
+            HOp::Clean => cont.clean_directory().map(|_| ()),
+            HOp::Compact => cont.compact_directory().map(|_| ()),
+            HOp::Place(i) => {
+                place(*i as usize);
+                Ok(())
+            }
+        });
+        call = format!("op #{n} {op:?} (initialised: {}, keys filed at the start: {:#08b})", c.initialize, c.placed);
+        if let Err(p) = r {
+            if j.report("C20:hardlink-container:panic".into(), format!("{call} panicked at {}:{}: {}", p.file, p.line, p.msg)) {
+                return j.finish(true);
+            }
+        }
+        if !sb.root.is_dir() {
+            j.class("escaped");
+            j.report("C20:hardlink-container:removes-its-own-directory-and-empty-ancestors".into(), format!("{call}: the configured directory {} is gone", sb.root.display()));
+            return j.finish(true);
+        }
+        if confined(&sb, &mut before, &mut j, "C20:hardlink-container:operation-changes-files-outside", "HardLinkContainer", &call) {
+            return j.finish(true);
+        }
+        if key_files(&before) == usize::from(c.initialize) && !matches!(op, HOp::Place(_)) {
+            emptied = true;
+        }
+    }
+    end_of_case(&sb);
+    j.class_if(emptied, "trie-emptied");
+    j.class_if(emptied && !c.initialize, "trie-emptied-without-token-file");
+    j.class_if(c.initialize, "initialised");
+    j.finish(emptied)
+}
